@@ -99,6 +99,11 @@ CHECKS.update({
         text="Exploration. Generated histories of append, +=, c[i]=v, del c[i], clear, len, iteration, c[i], index, membership on a Collection (members incl. falsy literals and duplicates, indices biased to first/last/len/len+1) compared step by step with a Python list, with a walk of the rdf:first/rdf:rest chain (well-formed, members equal, no orphan cells, unrelated triples untouched) after every step; reads on cyclic and malformed chains must return or raise within a logical step budget; exhaustive lane over all short histories. One listed finding (c[len]=x) is carved out by its trigger.",
         note="Negative indices not judged; non-termination judged up to the step budget only.",
         ref="DESIGN.md §3 C19"),
+    "C20": dict(
+        technique="runtime monitoring: client-side call history plus server-side request log over a loopback SPARQL endpoint owned by the check; model of the endpoint's dataset; exactly-once/in-order transaction checker",
+        text="Exploration. The check starts an http.server endpoint on 127.0.0.1 that implements the SPARQL 1.1 Protocol (GET, POST direct, POST form, default-graph-uri, XML/JSON negotiation) over a backing Dataset it can read directly, and drives Graph/ConjunctiveGraph on SPARQLUpdateStore through generated histories of add, addN, remove with every pattern shape, remove_graph, update(), len, membership, triples() for all eight shapes, contexts(), query(), commit and rollback, for every combination of method x result format x autocommit x dirty_reads x named/default graph, with literals carrying quotes, newlines, backslashes, tabs, non-ASCII, language tags, datatypes and falsy values. Oracles: every read equals what a name->set model says the endpoint holds; the backing dataset equals the model after every call and a second graph at the endpoint is never touched; with autocommit off no update request is logged before commit() (or before the next non-dirty read), a commit with queued edits logs exactly one request whose effect is the edits in order, a commit with nothing queued logs none, and rollback logs none and discards exactly the uncommitted edits.",
+        note="The endpoint answers with rdflib's own engine (cross-checked by C04/C10). Blank nodes are not sent. One listed finding (CR through XML results) is carved out.",
+        ref="DESIGN.md §3 C20"),
 })
 
 PENDING_REASON = "check not built yet in this session (planned, see DESIGN.md §2.1 build order); no claim is made until the monitor exists and has been calibrated"
